@@ -133,6 +133,15 @@ pub proof fn lemma_bitlen_bound(x: nat, k: nat)
     }
 }
 
+pub assume_specification<const N: usize> [ BUint::<N>::from_digit ] (x: u64) -> (r: BUint<N>)
+    ensures N >= 1 ==> uv(r) == x as nat;
+
+#[verifier::external_body]
+pub proof fn axiom_buint_mul_assign<const N: usize>(a: BUint<N>, b: BUint<N>)
+    ensures a.mul_assign_req(b) == (uv(a) * uv(b) < pow_w(N as nat)), <BUint<N> as MulAssignSpec<BUint<N>>>::obeys_mul_assign_spec(),
+        uv(a) * uv(b) < pow_w(N as nat) ==> uv(*a.mul_assign_spec(b)) == uv(a) * uv(b),
+{}
+
 pub assume_specification<const N: usize> [ <BUint<N> as core::convert::From<u64>>::from ] (x: u64) -> (r: BUint<N>)
     ensures N >= 1 ==> uv(r) == x as nat;
 
